@@ -485,7 +485,7 @@ def refines_eval(p):
         return out
     got = bool(got)
     # exact reading: must-True when containment holds exactly; must-False when some point violates beyond the tolerance
-    exact_cex = implies_exact([L], R, tol=0)
+    exact_cex = implies_exact([L], R, tol=0, box=False)  # must-True only when containment holds everywhere, not just inside the box
     tol_cex = implies_exact([L], R, tol=TOL)
     if "unknown" in (exact_cex, tol_cex):
         out["stats"]["oracle_unknown"] = 1
@@ -578,7 +578,7 @@ def simplify_eval(p):
     for i, t in enumerate(R.terms):
         rest = [u for j, u in enumerate(R.terms) if j != i]
         strong = type(t)(dict(t.variables), t.constant - float(TOL) * 2 * (1 + abs(t.constant)))
-        m = implies_exact([G, rest], [strong], tol=0)
+        m = implies_exact([G, rest], [strong], tol=0, box=False)
         if m is None and feasible_exact(type(S)(rest + list(G.terms))):
             viol.append(("C07", "redundant_term_left", "term %s is implied with margin by the remaining terms and the context" % t))
             break
